@@ -67,9 +67,18 @@ def fromFrequency (start : Int) (n : Nat) (volume : Rat) (f : Freq) (activeDays 
     let t := start + 3600 * (i : Int)
     (t, if matchesAt f ad hs t then volume else 0))
 
-/-- `create_hourly_usage_from_daily_volume_and_list_of_hours` -/
-def fromDailyVolume (start : Int) (n : Nat) (dailyVolume : Rat) (hours : List Int) : Series :=
+/-- the spreading itself: the volume divided by the number of listed hours, at the listed hours of every day -/
+def fromDailyVolumeCore (start : Int) (n : Nat) (dailyVolume : Rat) (hours : List Int) : Series :=
   fromFrequency start n (dailyVolume / (hours.length : Rat)) .daily none (some hours)
+
+/-- the hours a daily volume can be spread over: at least one, each listed once, each an hour of the day -/
+def validHours (hours : List Int) : Bool :=
+  !hours.isEmpty && decide hours.Nodup && hours.all (fun h => decide (0 ≤ h) && decide (h < 24))
+
+/-- `create_hourly_usage_from_daily_volume_and_list_of_hours`: a list with a repeated hour or an hour outside
+0..23 is refused (`ValueError`, since the repair of finding D12; an empty list divides by zero) -/
+def fromDailyVolume (start : Int) (n : Nat) (dailyVolume : Rat) (hours : List Int) : Except Err Series :=
+  if validHours hours then .ok (fromDailyVolumeCore start n dailyVolume hours) else .error (.other "invalid-hours")
 
 /-- `np.linspace(a, b, n)` on an hourly index (`linear_growth_hourly_values`) -/
 def linearGrowth (start : Int) (n : Nat) (a b : Rat) : Series :=
